@@ -120,6 +120,16 @@ func (p *untypedParamBinder) typeForSchema(tpe, format string, items *spec.Items
 	return nil
 }
 
+// setDefault stores the declared default in target, provided its Go type fits.
+func (p *untypedParamBinder) setDefault(target reflect.Value) error {
+	defVal := reflect.ValueOf(p.parameter.Default)
+	if !defVal.Type().AssignableTo(target.Type()) {
+		return errors.InvalidType(p.Name, p.parameter.In, target.Type().String(), p.parameter.Default)
+	}
+	target.Set(defVal)
+	return nil
+}
+
 func (p *untypedParamBinder) allowsMulti() bool {
 	return p.parameter.In == "query" || p.parameter.In == "formData"
 }
@@ -252,15 +262,14 @@ func (p *untypedParamBinder) Bind(request *http.Request, routeParams RouteParams
 		newValue := reflect.New(target.Type())
 		if !runtime.HasBody(request) {
 			if p.parameter.Default != nil {
-				target.Set(reflect.ValueOf(p.parameter.Default))
+				return p.setDefault(target)
 			}
 
 			return nil
 		}
 		if err := consumer.Consume(request.Body, newValue.Interface()); err != nil {
 			if err == io.EOF && p.parameter.Default != nil {
-				target.Set(reflect.ValueOf(p.parameter.Default))
-				return nil
+				return p.setDefault(target)
 			}
 			tpe := p.parameter.Type
 			if p.parameter.Format != "" {
@@ -417,7 +426,7 @@ func (p *untypedParamBinder) setFieldValue(target reflect.Value, defaultValue in
 		}
 
 	case reflect.Ptr:
-		if data == "" && defVal.Kind() == reflect.Ptr {
+		if data == "" && defVal.Kind() == reflect.Ptr && defVal.Type().AssignableTo(target.Type()) {
 			if target.CanSet() {
 				target.Set(defVal)
 			}
